@@ -304,6 +304,100 @@ def run_module_validity(res, tier, sc, drv):
     return {"modules_validated": checked}
 
 
+TRAP_FILES = ["mir_unopt.json", "mir_opt_11111.json", "lir.json", "lir_00000.json"]
+
+
+def _trap_one(job):
+    """whole-program symbolic execution from the entry points in the `new` role: casts can fail, arithmetic wraps;
+    everything is concrete except the results of builtin calls (the `sel` selector, Vec contents)"""
+    import z3
+    prog, path, bounds = job
+    P = irsym.Prog(json.load(open(path)))
+    out = {"program": prog, "file": os.path.basename(path), "paths": 0, "outcomes": {}, "illegal_casts": [], "status": "ok"}
+    for mn in P.mains:
+        w = irsym.World()
+        w.is_subtype = P.is_subtype
+        w.types = P.types
+        ex = irsym.Exec(P, w, "new", True, bounds)
+        ex.deadline = time.time() + bounds["seconds"]
+        ex.check_indirect_sigs = True
+        f = P.fns[mn]
+        try:
+            paths = ex.run(mn, irsym.mk_args(f, w))
+        except irsym.Unsupported as e:
+            out["status"] = "unsupported: %s" % e
+            continue
+        out["paths"] += len(paths)
+        s = z3.Solver()
+        s.set("timeout", 20000)
+        for p in paths:
+            key = p.outcome if p.outcome != "trap" else "trap: " + (p.why or "")[:40].split(" to ")[0]
+            out["outcomes"][key] = out["outcomes"].get(key, 0) + 1
+            if p.outcome == "trap" and (p.why or "").startswith(("illegal cast", "indirect call signature")):
+                s.push()
+                s.add(*p.pc)
+                s.add(*w.axioms)
+                r = s.check()
+                if r == z3.sat:
+                    m = s.model()
+                    calls = [t[0] for t in p.trace][-6:]
+                    evs = {}
+                    for d in m.decls():
+                        if d.name().startswith("ev") and ":" in d.name() and len(evs) < 8:
+                            evs[d.name()] = str(m[d])
+                    out["illegal_casts"].append({"entry": mn, "why": p.why, "last_calls": calls, "event_results": evs,
+                                                 "entered": sorted(getattr(p, "entered", ()))[-8:]})
+                elif r != z3.unsat:
+                    out["status"] = "solver unknown"
+                s.pop()
+    return out
+
+
+def run_trap_freedom(res, tier, sc, drv):
+    """C03: a well-typed program never fails a cast.  Every corpus program is executed symbolically from its entry
+    points on the MIR and LIR the real compiler produced (optimized and unoptimized); a satisfiable path that ends
+    in an illegal cast is a violation (division by zero and Process.panic are defined run-time errors, not counted)."""
+    outroot = os.path.join(sc.root, "et")
+    b = {"forks": 12, "steps": 200000, "paths": 5000, "depth": 40, "seconds": 60 if tier == "quick" else 400}
+    jobs = []
+    for name, mods in corpus(sc, tier):
+        if name == "repo-tests" and tier == "quick":
+            continue
+        od = os.path.join(outroot, name)
+        if not all(os.path.exists(os.path.join(od, f)) for f in TRAP_FILES):
+            p = drv.call(["dump", od, "11111,00000"] + mods, check=False, timeout=900)
+            if '"status":"ok"' not in p.stdout:
+                continue       # reported by run_module_validity
+        for f in TRAP_FILES:
+            if os.path.exists(os.path.join(od, f)):
+                jobs.append((name, os.path.join(od, f), b))
+    rows = []
+    known_hits = set()
+    from vlib.common import load_known
+    with concurrent.futures.ProcessPoolExecutor(max_workers=min(14, max(1, len(jobs)))) as ex:
+        for r in ex.map(_trap_one, jobs):
+            rows.append({k: v for k, v in r.items() if k != "illegal_casts"})
+            if r["status"] != "ok":
+                res.inconc("trap freedom %s/%s: %s" % (r["program"], r["file"], r["status"]))
+            seen = set()
+            for c in r["illegal_casts"]:
+                if c["why"] in seen:
+                    continue
+                seen.add(c["why"])
+                if c["why"].startswith("indirect call"):
+                    kn = [k for k in load_known("C03") if k.get("trap") == "indirect call signature mismatch" and k.get("program") == r["program"]]
+                    if kn:
+                        known_hits.add((kn[0]["id"], kn[0]["short"]))
+                        continue
+                res.violation("%s (%s): a path from %s ends in an %s although the program is well-typed (calls: %s)"
+                              % (r["program"], r["file"], c["entry"], c["why"], " > ".join(c["last_calls"])),
+                              {"program": r["program"], "file": r["file"], **c,
+                               "note": "not replayed: no WebAssembly-GC runtime in the sandbox and the TypeScript back end erases casts"})
+    for kid, short in sorted(known_hits):
+        res.known("%s %s" % (kid, short))
+    return {"trap_freedom": rows}
+
+
 def run_lirwat(res, tier, sc, drv):
     """C04: the TypeScript back end prints the LIR, the WebAssembly back end lowers it: every LIR function is compared
     with the WAT function generated from it (same observables for all arguments within the bounds)."""
